@@ -169,7 +169,7 @@ func checkCrypto(c *CryptoCase, st *tamperStats) *h.Failure {
 	return nil
 }
 
-var outputs = []string{"hi", "hi ", "Hi", "ho", "hi\nhi", "1", "1 2", "", "true"}
+var outputs = []string{"hi", "hi ", "Hi", "50% done", "hi\nhi", "1", "%v%d", "ho", "1 2", "", "true", "100%", "50%% done", "a\\b"}
 
 func programFor(out string) string {
 	var sb strings.Builder
@@ -179,7 +179,9 @@ func programFor(out string) string {
 	return sb.String()
 }
 
-func quote(s string) string { return `"` + strings.ReplaceAll(s, `"`, `\"`) + `"` }
+func quote(s string) string {
+	return `"` + strings.ReplaceAll(strings.ReplaceAll(s, `\`, `\\`), `"`, `\"`) + `"`
+}
 
 func checkQuestion(q *QuestionCase) *h.Failure {
 	mk := func(kind, detail string) *h.Failure {
@@ -300,7 +302,7 @@ func TestQuestions(t *testing.T) {
 	ks := keyPairs()
 	rapid.Check(t, func(t *rapid.T) {
 		n := rapid.IntRange(2, 6).Draw(t, "nchoices")
-		qOut := rapid.SampledFrom(outputs[:6]).Draw(t, "qout")
+		qOut := rapid.SampledFrom(outputs[:8]).Draw(t, "qout")
 		q := &QuestionCase{QuestionOut: qOut + "\n"}
 		var md strings.Builder
 		md.WriteString("## Question\n\nWhich program prints this?\n\n```\n" + qOut + "\n```\n\nChoose:\n\n")
